@@ -433,7 +433,7 @@ Lemma NPR_quote_trait t c0 :
   dinv (tv_data t) -> (c_fallible c0 = true -> tc_err (c_core c0) <> None) -> NPR (quote_trait t c0).
 Proof.
   intros Hd He. unfold quote_trait. cbv zeta.
-  apply NP_bind; [apply NPR_struct_post_init; exact Hd|]. intro post.
+  apply NP_bind; [destruct (is_some (tc_qret (c_core c0))); [apply NP_ok | apply NPR_struct_post_init; exact Hd]|]. intro post.
   repeat match goal with
          | |- NP _ (if ?b then _ else _) => destruct b eqn:?
          | |- NP _ (bind (main_code_block _ _) _) => apply NP_bind; [apply NPR_main_code_block; exact Hd | intro]
